@@ -50,6 +50,11 @@ def gen_cases(seed, tier):
     for j in range(126 if q else 2400):
         out.append({'seed': int(rng.integers(1 << 62)), 'cache': bool(j % 2),
             'vld': bool((j // 2) % 2), 'd': 2 + j % 3})
+    # objectives with exactly-zero slices (product-form support mask): the
+    # selection routines meet unfoldings with fewer non-zero rows than ranks
+    for j in range(60 if q else 1200):
+        out.append({'seed': int(rng.integers(1 << 62)), 'cache': j % 3 != 2,
+            'vld': False, 'd': 2 + j % 3, 'zero_slices': True})
     return out
 
 
@@ -172,6 +177,15 @@ def run_case(case, ctx):
         n[int(rng.integers(d))] = 3
     rho = int(rng.integers(1, 4))
     Tt, rt, T = crossh.make_target(rng, n, rho)
+    if case.get('zero_slices'):
+        T = T.copy()
+        for k in range(d):
+            keep = rng.random(n[k]) < 0.5
+            keep[int(rng.integers(n[k]))] = True
+            sl = [slice(None)] * d
+            sl[k] = ~keep
+            T[tuple(sl)] = 0.
+        ctx.event('objective-with-zero-slices')
     r0s = int(rng.integers(1, 3))
     r0 = [1] + [r0s] * (d - 1) + [1]
     Y0 = crossh.start_tensor(rng, n, r0)
